@@ -13,6 +13,14 @@ C->S  Trace_ECGroup: the tiny curves are instantiated with the library's own Cur
       the low-level ecdsa.Public_key constructor), all judged by the one rejection clause (ValidPub / OpenSSL pubcheck).
       Table path: generator=True points in several projective scalings (Z != 1), odd and even k (TLC on the tiny curves,
       OpenSSL on the shipped ones) next to the NAF path.
+      Cofactor curves: model curve TH4 (|E| = 28, n = 7, h = 4): the group law on ALL finite points (most of them outside
+      <G>), as objects without a declared order (any scalar: n, 2n, h*n, n+-1 ...) and with the declared order n (scalars
+      below 2n), key loading / ECDH refusal for every point incl. objects that declare the order n; SECP112r2: crafted
+      points of order 2, 2n, 4, 4n through every entry point, also as objects declaring order n (OpenSSL judges).
+      Long-lived objects: one ECDH object through 60-70 peers loaded in turn (bytes / DER / PEM / object), no references
+      kept, gc in between, private key re-loaded: every secret judged like a fresh one (TLC / openssl derive).
+      Look-alike Curve objects (same OID / name / p and a, other b / generator / order value / missing OID) as peer curve
+      in every ECDH call sequence; scalar value classes with long runs and periodic bit patterns through both point classes.
       Error paths: the first multiplication of a fresh generator=True point is interrupted (a private BaseException raised
       from a sys.settrace line event, EVERY position inside PointJacobi._maybe_precompute on the tiny curves, sampled
       positions on all shipped curves), the exception swallowed, and later multiplications on the same object are judged
